@@ -5,6 +5,7 @@ cd "$V" || exit 1
 out=seeded/RESULTS.tsv; : > $out
 for d in seeded/C*-*/; do
   name=$(basename $d); c=${name%%-*}
+  [ -f $d/SUPERSEDED ] && { echo -e "$name\t$c\tSUPERSEDED\tneutralised by a later fix (see its meta.json)" >> $out; continue; }
   r=$(tools/seed_eval.sh $name $c 2>&1 | grep "^SEED")
   rc=$(echo "$r" | grep -o "rc=[0-9]*" | head -1)
   sig=$(echo "$r" | sed 's/.*first: *-> //' | cut -d'|' -f1 | cut -c1-80)
